@@ -547,7 +547,10 @@ func c14(r *hx.Run) {
 			mustReject("missing-chunk-reference", "ref:chunks-removed", p, edit("provIndex", func(m map[string]interface{}) { delete(m, "chunks") }), nil, fs.count)
 			mustReject("missing-chunk-reference", "ref:chunks-empty", p, edit("provIndex", func(m map[string]interface{}) { m["chunks"] = []interface{}{} }), nil, fs.count)
 			mustReject("count-disagreement", "count:chunk-delta-removed", p, edit("chunk", func(m map[string]interface{}) { d := m["deltas"].([]interface{}); m["deltas"] = d[:len(d)-1] }), nil, fs.count)
-			mustReject("count-disagreement", "count:chunk-delta-added", p, edit("chunk", func(m map[string]interface{}) { d := m["deltas"].([]interface{}); m["deltas"] = append(d, doc.Clone(d[0])) }), nil, fs.count)
+			mustReject("count-disagreement", "count:chunk-delta-added", p, edit("chunk", func(m map[string]interface{}) {
+				d := m["deltas"].([]interface{})
+				m["deltas"] = append(d, doc.Clone(d[0]))
+			}), nil, fs.count)
 			mustReject("missing-provisional-index", "ref:prov-index-removed", p, edit("coreIndex", func(m map[string]interface{}) { delete(m, "provisionalIndexFileUri") }), nil, fs.count)
 		}
 		for _, file := range []string{"coreProof", "provProof"} {
